@@ -15,6 +15,7 @@ import ast
 from ..core import astutil as au
 from ..core.report import AnalysisError
 from ..core.tables import FiniteEval
+from ..core.template import find, has, require
 
 LEVEL = 'other'
 TIME = 'emg3d/time.py'
@@ -124,73 +125,94 @@ def run(ctx):
     # F3 interpolate()
     fn = mod.method('Fourier', 'interpolate')
     ps = au.params(fn)
+    init = find('_o_ = np.zeros(self.freq_required.size, '
+                'dtype=np.complex128)', fn)
+    ctx.check('C20.F3.stores', 'interpolate: zero spectrum of required size',
+              len(init) == 1, 'output spectrum is not initialised as complex '
+              'zeros over the required frequencies', ctx.where(mod, fn))
+    out = init[0][1]['_o_'] if init else 'out'
     stores = [n for n in ast.walk(fn) if isinstance(n, (ast.Assign,
                                                         ast.AugAssign))
               and any(isinstance(t, ast.Subscript) and ast.unparse(t.value)
-                      == 'out' for t in (n.targets if isinstance(
+                      == out for t in (n.targets if isinstance(
                           n, ast.Assign) else [n.target]))]
-    allowed = {'out[self.ifreq_interpolate]', 'out[self.ifreq_extrapolate]'}
-    for s in stores:
-        t = ast.unparse(s.targets[0] if isinstance(s, ast.Assign)
-                        else s.target)
-        ctx.check('C20.F3.stores', f'interpolate `{au.stext(s)[:60]}`',
-                  t in allowed and isinstance(s, ast.Assign),
+    allowed = {f'{out}[self.ifreq_interpolate]',
+               f'{out}[self.ifreq_extrapolate]'}
+    for s_ in stores:
+        t = ast.unparse(s_.targets[0] if isinstance(s_, ast.Assign)
+                        else s_.target)
+        ctx.check('C20.F3.stores', f'interpolate `{au.stext(s_)[:60]}`',
+                  t in allowed and isinstance(s_, ast.Assign),
                   f'interpolate() writes `{t}`; the spectrum may only be '
                   'filled through the interpolation and extrapolation masks '
-                  '(zero elsewhere)', ctx.where(mod, s))
-    ctx.floor('C20.F3.stores', 3)
-    init = [n for n in fn.body if isinstance(n, ast.Assign) and
-            ast.unparse(n.targets[0]) == 'out']
-    ok = len(init) == 1 and ast.unparse(init[0].value).replace(' ', '') == \
-        'np.zeros(self.freq_required.size,dtype=np.complex128)'
-    ctx.check('C20.F3.stores', 'interpolate: zero spectrum of required size',
-              ok, 'output spectrum is not initialised as zeros over the '
-              'required frequencies', ctx.where(mod, fn))
+                  '(zero elsewhere)', ctx.where(mod, s_))
+    ctx.floor('C20.F3.stores', 4)
     rets = [n for n in ast.walk(fn) if isinstance(n, ast.Return)]
     ctx.check('C20.F3.stores', 'interpolate returns the filled spectrum',
-              len(rets) == 1 and ast.unparse(rets[0].value) == 'out',
+              len(rets) == 1 and ast.unparse(rets[0].value) == out,
               'interpolate() does not return the filled spectrum',
               ctx.where(mod, fn))
     # pass-through branch
     br = [n for n in fn.body if isinstance(n, ast.If)]
     ctx.anchor(len(br) == 1, 'size test in interpolate()')
-    ttxt = ast.unparse(br[0].test).replace(' ', '')
-    passthru = [s for s in br[0].orelse if isinstance(s, ast.Assign)]
-    ok = ttxt == 'self.freq_coarse.size!=self.freq_required.size' and \
-        len(passthru) == 1 and ast.unparse(passthru[0]) == \
-        f'out[self.ifreq_interpolate] = {ps[1]}'
+    sz = has('self.freq_coarse.size != self.freq_required.size', br[0].test)
+    eq = has('self.freq_coarse.size == self.freq_required.size', br[0].test)
+    same = br[0].orelse if sz else br[0].body
+    diff = br[0].body if sz else br[0].orelse
+    ok = (sz or eq) and len(same) == 1 and has(
+        f'{out}[self.ifreq_interpolate] = {ps[1]}', same[0])
     ctx.check('C20.F3.passthrough', 'interpolate: equal sizes pass data '
               'through unchanged', ok, 'data supplied at the required '
               'frequencies are not passed through unchanged',
               ctx.where(mod, br[0]))
-    btxt = ast.unparse(br[0]).replace(' ', '')
+    parts = {}
     for part in ('real', 'imag'):
-        ok = (f'Spline(np.log(self.freq_compute),{ps[1]}.{part})'
-              f'(np.log(self.freq_interpolate))') in btxt
+        f = find(f'_v_ = _S_(np.log(self.freq_compute), {ps[1]}.{part})'
+                 '(np.log(self.freq_interpolate))', diff)
         ctx.check('C20.F3.spline', f'interpolate: spline of the {part} part',
-                  ok, f'{part} part is not splined from the computed to the '
-                  'interpolated frequencies (log axis)', ctx.where(mod, br[0]))
+                  len(f) == 1, f'{part} part is not splined from the '
+                  'computed to the interpolated frequencies (log axis)',
+                  ctx.where(mod, br[0]))
+        parts[part] = f[0][1]['_v_'] if f else '?'
     ctx.check('C20.F3.spline', 'interpolate: real + 1j*imag',
-              'out[self.ifreq_interpolate]=int_real+1j*int_imag' in btxt,
+              has(f'{out}[self.ifreq_interpolate] = {parts["real"]} + '
+                  f'1j*{parts["imag"]}', diff),
               'interpolated spectrum is not real + i imag',
               ctx.where(mod, br[0]))
-    ftxt = ast.unparse(fn).replace(' ', '')
-    ctx.check('C20.F3.extrapolate', 'extrapolation anchors',
-              'freq_ext=np.r_[1e-100,self.freq_compute]' in ftxt and
-              f'data_ext=np.r_[{ps[1]}[0].real-1e-100j,{ps[1]}]' in ftxt,
+    fe_ = find('_f_ = np.r_[_eps_, self.freq_compute]', fn)
+    de_ = find(f'_d_ = np.r_[{ps[1]}[0].real - _e_, {ps[1]}]', fn)
+    ok = len(fe_) == 1 and len(de_) == 1
+    if ok:
+        try:
+            eps = float(ast.literal_eval(fe_[0][1]['_eps_']))
+            im = complex(ast.literal_eval(de_[0][1]['_e_']))
+            ok = 0 < eps < 1e-20 and im.real == 0 and 0 < abs(im.imag) < 1e-20
+        except Exception:
+            ok = False
+    ctx.check('C20.F3.extrapolate', 'extrapolation anchors', ok,
               'extrapolation is not anchored at (f->0: lowest real value, '
-              'zero imaginary part) followed by the computed data',
+              'vanishing imaginary part) followed by the computed data',
               ctx.where(mod, fn))
-    for part, var in (('real', 'ext_real'), ('imag', 'ext_imag')):
-        ctx.check('C20.F3.extrapolate', f'PCHIP of the {part} part',
-                  f'{var}=Pchip(freq_ext,data_ext.{part})'
-                  f'(self.freq_extrapolate)' in ftxt,
-                  f'{part} part is not extended monotonically (PCHIP) to the '
-                  'extrapolated frequencies', ctx.where(mod, fn))
-    ctx.check('C20.F3.extrapolate', 'extrapolated values stored',
-              'out[self.ifreq_extrapolate]=ext_real+1j*ext_imag' in ftxt,
-              'extrapolated spectrum is not real + i imag',
-              ctx.where(mod, fn))
+    ext = {}
+    if fe_ and de_:
+        fx, dx = fe_[0][1]['_f_'], de_[0][1]['_d_']
+        for part in ('real', 'imag'):
+            f = find(f'_v_ = _P_({fx}, {dx}.{part})(self.freq_extrapolate)',
+                     fn)
+            ok = len(f) == 1
+            if ok:
+                pd = find(f'{f[0][1]["_P_"]} = '
+                          'sp.interpolate.PchipInterpolator', fn)
+                ok = len(pd) == 1
+            ctx.check('C20.F3.extrapolate', f'PCHIP of the {part} part', ok,
+                      f'{part} part is not extended monotonically (PCHIP) '
+                      'to the extrapolated frequencies', ctx.where(mod, fn))
+            ext[part] = f[0][1]['_v_'] if f else '?'
+        ctx.check('C20.F3.extrapolate', 'extrapolated values stored',
+                  has(f'{out}[self.ifreq_extrapolate] = {ext["real"]} + '
+                      f'1j*{ext["imag"]}', fn),
+                  'extrapolated spectrum is not real + i imag',
+                  ctx.where(mod, fn))
     # F4 freq2time
     f2 = mod.method('Fourier', 'freq2time')
     p2 = au.params(f2)
@@ -206,11 +228,10 @@ def run(ctx):
                   f'{k}={kws.get(k)} is handed to the transform, expected '
                   f'{w}', ctx.where(mod, c), sample={'kw': k,
                                                      'value': kws.get(k)})
-    src = [n for n in f2.body if isinstance(n, ast.Assign) and
-           ast.unparse(n.value) == f'self.interpolate({p2[1]})']
-    ok = len(src) == 1 and len(c.args) == 2 and ast.unparse(c.args[0]) == \
-        f'{ast.unparse(src[0].targets[0])}[:, None]' and \
-        ast.unparse(c.args[1]) == f'np.array({p2[2]})'
+    src = find(f'_d_ = self.interpolate({p2[1]})', f2)
+    ok = len(src) == 1 and len(c.args) == 2 and has(
+        f'{src[0][1]["_d_"]}[:, None]', c.args[0]) and has(
+        f'np.array({p2[2]})', c.args[1])
     ctx.check('C20.F4.handover', 'freq2time: filled spectrum', ok,
               'the transform does not receive interpolate(fdata)',
               ctx.where(mod, c))
